@@ -1,7 +1,7 @@
 (* Run.v — top-level dispatch: TL (TN machine :: args).
    Machines: 1 CMS mem, 3 Bloom mem, 5 HLL mem, 7 Cuckoo mem. *)
 From GX.Model Require Import Base.
-From GX.Runner Require Import RunCMS RunCMS2 RunBloom RunHLL RunCuckoo RunTopK RunRedisCMS RunRedisHLL RunRedisBloom RunRedisTopK RunRedisCuckoo RunSizing.
+From GX.Runner Require Import RunCMS RunCMS2 RunBloom RunHLL RunCuckoo RunTopK RunRedisCMS RunRedisHLL RunRedisBloom RunRedisTopK RunRedisCuckoo RunSizing RunSched.
 
 Definition run_case (c : tok) : tok :=
   match tok_L c with
@@ -16,5 +16,6 @@ Definition run_case (c : tok) : tok :=
   | TN 9 :: args => run_topk_case args
   | TN 10 :: args => run_rtopk_case args
   | TN 11 :: args => run_sizing_case args
+  | TN 12 :: args => run_sched_case args
   | _ => T_INVALID
   end.
